@@ -48,7 +48,7 @@ class RefProto:
 class RefLink:
     def __init__(self, ref: RefPeer, opts: Optional[Dict[str, Any]] = None,
                  h: Optional[Harness] = None, wait: str = 'auth',
-                 reverse: bool = False):
+                 reverse: bool = False, options: Any = None):
         self.h = h or Harness()
         self.ref = ref
         self.rp = RefProto(ref)
@@ -62,7 +62,9 @@ class RefLink:
             if 'server_factory' not in opts:
                 opts['server_factory'] = memwire.PwServer
 
-            self.options = asyncssh.SSHServerConnectionOptions(
+            # (options: a prepared object, as shared by all connections of
+            # one listener)
+            self.options = options or asyncssh.SSHServerConnectionOptions(
                 **memwire.default_server_options(**opts))
             self.ready = loop.create_future()
 
